@@ -22,11 +22,11 @@ Definition request_ok (r : request) : Prop :=
 
 (* ids of the fixed lengths; every other byte string shorter than 10^4300 bytes and every integer of at
    most 4300 digits (Python cannot print or read longer ones); error texts valid UTF-8 (they are str
-   objects in the class); the response payload any value the codec reads back (see [wfq]) *)
+   objects in the class); the response payload any value the codec reads back (see [wfv]) *)
 Definition wf_message (m : message) : Prop :=
   match m with
   | Request rpc node r => blen rpc = 20 /\ blen node = 48 /\ request_ok r
-  | Response rpc node p => blen rpc = 20 /\ blen node = 48 /\ wfq p
+  | Response rpc node p => blen rpc = 20 /\ blen node = 48 /\ wfv p
   | Error rpc node et tx => blen rpc = 20 /\ blen node = 48 /\ small et /\ small tx
                             /\ utf8_valid et = true /\ utf8_valid tx = true
   end.
@@ -46,13 +46,12 @@ Ltac items :=
          | |- Forall _ [] => apply Forall_nil
          end; cbn [fst snd key_ok].
 
-Lemma wfq_pv_dict : wfq pv_dict.
+Lemma wfv_pv_dict : wfv pv_dict.
 Proof.
-  apply wfq_dict.
-  - items. split; [apply small_lit; vm_compute; reflexivity | apply wfq_int; apply int_ok_small; vm_compute; reflexivity].
+  apply wfv_dict.
+  - items. split; [apply small_lit; vm_compute; reflexivity | apply wfv_int; apply int_ok_small; vm_compute; reflexivity].
   - reflexivity.
   - cbn. repeat constructor.
-  - exact I.
 Qed.
 
 Ltac leaf :=
@@ -61,36 +60,35 @@ Ltac leaf :=
   | |- key_ok _ => unfold PAGE_KEY, PV; cbn [key_ok]; leaf
   | |- int_ok _ => first [assumption | apply int_ok_small; vm_compute; reflexivity]
   | |- small _ => first [assumption | (eapply small_lt; [eassumption | reflexivity]) | (apply small_lit; vm_compute; reflexivity)]
-  | |- wfq (BInt _) => apply wfq_int; leaf
-  | |- wfq (BStr _) => apply wfq_str; leaf
-  | |- wfq pv_dict => apply wfq_pv_dict
+  | |- wfv (BInt _) => apply wfv_int; leaf
+  | |- wfv (BStr _) => apply wfv_str; leaf
+  | |- wfv pv_dict => apply wfv_pv_dict
   | |- keys_nodup _ => cbn; repeat constructor
-  | |- inner_closed _ => cbn; repeat split
   | _ => idtac
   end.
 
-Lemma wfq_args node r : small node -> request_ok r -> wfq (BList (args_of node r)).
+Lemma wfv_args node r : small node -> request_ok r -> wfv (BList (args_of node r)).
 Proof.
   intros Hn Hr. destruct r as [|h t p|k|k page]; cbn [args_of request_ok] in *.
-  - apply wfq_list; [items; leaf | exact I].
-  - destruct Hr as (Hh & Ht & Hp). apply wfq_list; [items; leaf | leaf].
-  - apply wfq_list; [items; leaf | leaf].
-  - destruct Hr as (Hk & Hp). apply wfq_list; [items; leaf | leaf].
-    apply wfq_dict; [items; leaf | reflexivity | leaf | leaf].
+  - apply wfv_list; items; leaf.
+  - destruct Hr as (Hh & Ht & Hp). apply wfv_list; items; leaf.
+  - apply wfv_list; items; leaf.
+  - destruct Hr as (Hk & Hp). apply wfv_list; items; leaf.
+    apply wfv_dict; [items; leaf | reflexivity | leaf].
 Qed.
 
-Lemma wfq_value_of_message m : wf_message m -> wfq (value_of_message m).
+Lemma wfv_value_of_message m : wf_message m -> wfv (value_of_message m).
 Proof.
   destruct m as [rpc node r|rpc node p|rpc node et tx]; cbn [wf_message value_of_message].
   - intros (Hr & Hn & Hq).
     assert (small node) by (eapply small_lt; [exact Hn | reflexivity]).
-    apply wfq_dict; [items; leaf | reflexivity | leaf | leaf].
+    apply wfv_dict; [items; leaf | reflexivity | leaf].
     + destruct r; apply small_lit; vm_compute; reflexivity.
-    + apply wfq_args; assumption.
+    + apply wfv_args; assumption.
   - intros (Hr & Hn & Hp).
-    apply wfq_dict; [items; leaf | reflexivity | leaf | leaf]. exact Hp.
+    apply wfv_dict; [items; leaf | reflexivity | leaf]. exact Hp.
   - intros (Hr & Hn & He & Ht & _ & _).
-    apply wfq_dict; [items; leaf | reflexivity | leaf | leaf].
+    apply wfv_dict; [items; leaf | reflexivity | leaf].
 Qed.
 
 (* ------------------------------------------------------------------------------------------ *)
@@ -119,7 +117,7 @@ Theorem decode_encode_message fuel m :
   wf_message m -> (message_depth m <= fuel)%nat ->
   decode_datagram fuel (encode_message m) = inl (raw_of_message m).
 Proof.
-  intros Hw Hf. pose proof (wfq_value_of_message m Hw) as Hq.
+  intros Hw Hf. pose proof (wfv_value_of_message m Hw) as Hq.
   unfold decode_datagram, encode_message, message_depth in *.
   destruct m as [rpc node r|rpc node p|rpc node et tx]; cbn [wf_message value_of_message raw_of_message] in *.
   - destruct Hw as (Hr & Hn & _).
@@ -151,24 +149,17 @@ Proof. unfold message_depth. cbn [value_of_message depth_of fold_right]. lia. Qe
 Definition contact_ok (c : bytes * bytes * Z) : Prop :=
   match c with (id, addr, port) => small id /\ small addr /\ int_ok port end.
 
-Lemma wfq_contacts l : Forall contact_ok l -> wfq (contacts_val l).
+Lemma wfv_contacts l : Forall contact_ok l -> wfv (contacts_val l).
 Proof.
-  intro H. unfold contacts_val. apply wfq_list.
-  - apply Forall_map. eapply Forall_impl; [|exact H]. intros [[id addr] port] (H1 & H2 & H3).
-    cbn [contact_val]. apply wfq_list; [repeat constructor; assumption | cbn; repeat split].
-  - induction l as [|c r IH]; [exact I|]. cbn [map inner_closed].
-    inversion H as [|? ? _ Hr]; subst. specialize (IH Hr).
-    destruct r as [|c2 r2]; [exact I|]. cbn [map] in *. split; [|exact IH].
-    destruct c as [[? ?] ?]. reflexivity.
+  intro H. unfold contacts_val. apply wfv_list.
+  apply Forall_map. eapply Forall_impl; [|exact H]. intros [[id addr] port] (H1 & H2 & H3).
+  cbn [contact_val]. apply wfv_list. repeat constructor; assumption.
 Qed.
 
-Lemma wfq_peers l : Forall small l -> wfq (peers_val l).
+Lemma wfv_peers l : Forall small l -> wfv (peers_val l).
 Proof.
-  intro H. unfold peers_val. apply wfq_list.
-  - apply Forall_map. eapply Forall_impl; [|exact H]. intros s Hs. apply wfq_str. exact Hs.
-  - induction l as [|c r IH]; [exact I|]. cbn [map inner_closed].
-    inversion H as [|? ? _ Hr]; subst. specialize (IH Hr).
-    destruct r as [|c2 r2]; [exact I|]. cbn [map] in *. split; [reflexivity|exact IH].
+  intro H. unfold peers_val. apply wfv_list.
+  apply Forall_map. eapply Forall_impl; [|exact H]. intros s Hs. apply wfv_str. exact Hs.
 Qed.
 
 Lemma depth_contacts l : (depth_of (contacts_val l) <= 3)%nat.
@@ -225,18 +216,18 @@ Qed.
 Lemma key_ok_canonical k : key_ok k -> canonical k.
 Proof. destruct k; simpl; intro H; try contradiction; constructor. Qed.
 
-Lemma wfq_canonical v : wfq v -> canonical v.
+Lemma wfv_canonical v : wfv v -> canonical v.
 Proof.
   induction v as [z|s|l IHl|d IHd] using bval_ind'; intro Hw.
   - constructor.
   - constructor.
-  - inversion Hw as [| |l' Hl _|]; subst. constructor. rewrite Forall_forall in *. intros x Hx. apply IHl; [exact Hx|apply Hl; exact Hx].
-  - inversion Hw as [| | |d' Hd Hs _ _]; subst. constructor; [|exact Hs]. rewrite Forall_forall in *. intros p Hp.
+  - inversion Hw as [| |l' Hl|]; subst. constructor. rewrite Forall_forall in *. intros x Hx. apply IHl; [exact Hx|apply Hl; exact Hx].
+  - inversion Hw as [| | |d' Hd Hs _]; subst. constructor; [|exact Hs]. rewrite Forall_forall in *. intros p Hp.
     destruct (IHd p Hp) as [_ Ix]. destruct (Hd p Hp) as [Hk Hx]. split; [apply key_ok_canonical; exact Hk | apply Ix; exact Hx].
 Qed.
 
 Theorem encode_message_ref m : wf_message m -> encode_message m = ref_benc (value_of_message m).
-Proof. intro H. unfold encode_message. apply benc_ref. apply wfq_canonical. apply wfq_value_of_message. exact H. Qed.
+Proof. intro H. unfold encode_message. apply benc_ref. apply wfv_canonical. apply wfv_value_of_message. exact H. Qed.
 
 (* the wire layout of the four requests, byte for byte *)
 Lemma ping_layout rpc node : blen rpc = 20 -> blen node = 48 ->
@@ -471,7 +462,7 @@ Lemma contacts_roundtrip fuel rpc node (l : list (bytes * bytes * Z)) :
   decode_datagram fuel (encode_message (Response rpc node (contacts_val l))) = inl (RResp rpc node (contacts_val l)).
 Proof.
   intros H1 H2 H3 H4. apply (decode_encode_message fuel (Response rpc node (contacts_val l))).
-  - cbn. split; [exact H1|]. split; [exact H2|]. apply wfq_contacts. exact H3.
+  - cbn. split; [exact H1|]. split; [exact H2|]. apply wfv_contacts. exact H3.
   - rewrite response_depth. pose proof (depth_contacts l). lia.
 Qed.
 
@@ -480,6 +471,6 @@ Lemma peers_roundtrip fuel rpc node (l : list bytes) :
   decode_datagram fuel (encode_message (Response rpc node (peers_val l))) = inl (RResp rpc node (peers_val l)).
 Proof.
   intros H1 H2 H3 H4. apply (decode_encode_message fuel (Response rpc node (peers_val l))).
-  - cbn. split; [exact H1|]. split; [exact H2|]. apply wfq_peers. exact H3.
+  - cbn. split; [exact H1|]. split; [exact H2|]. apply wfv_peers. exact H3.
   - rewrite response_depth. pose proof (depth_peers l). lia.
 Qed.
